@@ -903,6 +903,17 @@ class _ConstGetattr(ast.NodeTransformer):
         return n
 
 
+    def visit_Expr(self, n):
+        # `setattr(x, "name", v)` as a statement (the name may come from a row of an unrolled table) is the store `x.name = v`
+        self.generic_visit(n)
+        c = n.value
+        if isinstance(c, ast.Call) and isinstance(c.func, ast.Name) and c.func.id == "setattr" and len(c.args) == 3 and not c.keywords \
+                and isinstance(c.args[1], ast.Constant) and isinstance(c.args[1].value, str) and c.args[1].value.isidentifier() \
+                and not any(isinstance(a, ast.Starred) for a in c.args):
+            return ast.copy_location(ast.Assign(targets=[ast.Attribute(value=c.args[0], attr=c.args[1].value, ctx=ast.Store())], value=c.args[2]), n)
+        return n
+
+
 def const_getattr(node):
     return ast.fix_missing_locations(_ConstGetattr().visit(node))
 
